@@ -15,7 +15,7 @@ use std::collections::VecDeque;
 
 pub struct C17;
 
-const ALPHA: [&str; 13] = ["1", "9", "-", "+", ".", "E", "&", "H", "\"", ",", " ", "x", "é"];
+const ALPHA: [&str; 14] = ["1", "9", "-", "+", ".", "E", "D", "&", "H", "\"", ",", " ", "x", "é"];
 
 fn v(n: &str) -> LVal {
     LVal::Var(n.into())
@@ -158,7 +158,7 @@ impl Sweep for Replies {
             for long in ["x".repeat(1025), "1".repeat(1025), format!("{},{}", "x".repeat(600), "1".repeat(600)), "9".repeat(300)] {
                 judge(input, &[long, good.clone(), good.clone()], ctx);
             }
-            for r in ["\"a,b\",5", "\"a,b\"", " 5 , ok ", "5,\"ok\"", "\"ok\",5", "5,ok,6,7", "5,,6", ",,", "1E2,ok", "1D2", "&H1F", "&17", "&h1f", "1e2", "-5", "+5", "5!", "5#", "5%", "NAN", "inf", "&-1", "&H-F", "1 2", "\"", "\"\"", "5,\"a", "40000", "-40000", "1E39", "1D309", " ", "x\"y"] {
+            for r in ["\"a,b\",5", "\"a,b\"", " 5 , ok ", "5,\"ok\"", "\"ok\",5", "5,ok,6,7", "5,,6", ",,", "1E2,ok", "1D2", "&H1F", "&17", "&h1f", "&HD", "&H1D", "&hdd", "&H7FFF", "&HABCD", "&H8000", "&77777", "&100000", "1e2", "-5", "+5", "5!", "5#", "5%", "NAN", "inf", "&-1", "&H-F", "1 2", "\"", "\"\"", "5,\"a", "40000", "-40000", "1E39", "1D309", " ", "x\"y"] {
                 judge(input, &[r.to_string(), good.clone(), good.clone()], ctx);
             }
         }
@@ -194,7 +194,7 @@ impl Check for C17 {
     fn meta(&self, tier: Tier) -> Meta {
         Meta {
             bound: format!(
-                "25 INPUT statements (no prompt / prompt / leading comma x variable lists A | A% | A# | A$ | A,B$ | A$,B | A%,A$,A# | I,D(I), plus a leading-comma-with-prompt form) x every reply of length <={} over {{1 9 - + . E & H \" , blank x é}}, plus 33 hand-picked replies (quoted commas, blanks, suffixes, radix forms, NAN/inf, out-of-range numbers) and over-long replies (300, 1025, 1201 bytes); each inside FOR K=1 TO 2 .. NEXT with the values of all targets printed after the statement; a rejected reply is followed by a known-good one",
+                "25 INPUT statements (no prompt / prompt / leading comma x variable lists A | A% | A# | A$ | A,B$ | A$,B | A%,A$,A# | I,D(I), plus a leading-comma-with-prompt form) x every reply of length <={} over {{1 9 - + . E D & H \" , blank x é}}, plus 41 hand-picked replies (quoted commas, blanks, suffixes, radix forms, NAN/inf, out-of-range numbers) and over-long replies (300, 1025, 1201 bytes); each inside FOR K=1 TO 2 .. NEXT with the values of all targets printed after the statement; a rejected reply is followed by a known-good one",
                 tier.pick(4, 5)
             ),
             rule: "a case is (INPUT statement, reply script); compared: prompts with capitalisation flag, REDO FROM START events, printed values of all variables, loop completion; distinct_nontrivial = distinct expected transcripts".into(),
